@@ -21,6 +21,13 @@
      parse_cosmology       CustomCosmology instances refused with TypeError  6ce6785 (97829cc:
                            float-returning custom comoving_distance in the comoving factory)
 
+   Two further axes, at the end of the file:
+     interpreter modes     guards / create_g: every numeric validation as a site that is a raise
+                           statement or an assert / `if __debug__` block, dbg = __debug__ (python -O)
+     python types          linear_edges_prec: the grid computed in the precision of the type of the
+                           limits (F26, numpy.float32 limits, repaired in 18c893e; F27, float32
+                           scale limits, 3e8b370, is the same defect in Scales._set_scales)
+
    ORACLES (Section Context below, nothing else is assumed):
      Dc  cos z : comoving distance D_C(z) [Mpc] of cosmology number cos
                  (cosmology.comoving_distance)
@@ -611,3 +618,73 @@ Definition c15_angle_case (u : unit_t) (pi180 DA DC : Q) (rs angles : list Q) : 
   code [close angles (map (angle u pi180 DA DC) rs);
         close angles (map (angle_spec u pi180 DA DC) rs);
         pi180_ok pi180].
+(* ================================================================== interpreter modes *)
+(* A validation in the code is either a `raise` statement behind an `if` (GRaise) or an `assert`
+   statement / a block behind `if __debug__` (GAssert).  [dbg] is the value of __debug__: true in an
+   interpreter started normally, false with python -O / -OO / PYTHONOPTIMIZE >= 1, where assert
+   statements and `if __debug__` blocks are compiled away.  The numeric validations the property
+   demands, as sites (the lookups of method / unit / closed / cosmology names fail by themselves and
+   are not guards): *)
+Inductive guard_kind := GRaise | GAssert.
+Record guards := mkGuards {
+  g_edges_len : guard_kind;     (* parse_binning: one-dimensional, at least two edges *)
+  g_edges_inc : guard_kind;     (* parse_binning: np.diff > 0 everywhere *)
+  g_scales : guard_kind }.      (* Scales._set_scales: equal lengths, rmin < rmax *)
+Definition all_raise : guards := mkGuards GRaise GRaise GRaise.      (* the code as it is *)
+(* does the guard refuse when the condition [bad] it tests holds? *)
+Definition fires (k : guard_kind) (dbg bad : bool) : bool :=
+  match k with GRaise => bad | GAssert => dbg && bad end.
+
+(* the two functions every construction path (create, modify, from_dict) funnels through *)
+Definition mk_binning_g (g : guards) (dbg : bool) (e : list Q) (m : method) (cl : closed_t) : outcome binning :=
+  if fires (g_edges_len g) dbg (negb (2 <=? length e)%nat) || fires (g_edges_inc g) dbg (negb (strict_incb e))
+  then Rejected else Ok (mkBinning e m cl).
+Definition create_scales_g (g : guards) (dbg : bool) (rmin rmax : list Q) (u : option unit_t) (rw : option Q)
+           (res : option Z) : outcome scales :=
+  match default Ukpc u with
+  | UUnknown => Rejected
+  | u' => if fires (g_scales g) dbg (negb (scales_valid rmin rmax)) then Rejected
+          else Ok (mkScales rmin rmax u' rw res)
+  end.
+
+Section Modes.
+Context (Dc : nat -> Q -> Q) (Dci : nat -> Q -> Q) (Lg Ex : Q -> Q).
+
+(* BinningConfig.create / Configuration.create of the repaired code, validations as in [g] *)
+Definition create_binning_g (g : guards) (dbg : bool) (cos : nat) (zmin zmax : option Q) (nb : option nat)
+           (m : option method) (edges : option (list Q)) (cl : option closed_t) : outcome binning :=
+  let cl := default ClRight cl in
+  match zmin, zmax with
+  | Some a, Some b =>
+      match cl with
+      | ClUnknown => Rejected
+      | _ => match gen_edges Dc Dci Lg Ex true cos (default MLinear m) a b (default 30%nat nb) with
+             | None => Rejected
+             | Some e => mk_binning_g g dbg e (default MLinear m) cl
+             end
+      end
+  | _, _ =>
+      match edges with
+      | None => Rejected
+      | Some e => match cl with ClUnknown => Rejected | _ => mk_binning_g g dbg e MCustom cl end
+      end
+  end.
+Definition create_g (g : guards) (dbg : bool) (p : params) : outcome config :=
+  cos <- parse_cosmology true (p_cosmo p) ;;
+  s <- create_scales_g g dbg (p_rmin p) (p_rmax p) (p_unit p) (p_rweight p) (p_resolution p) ;;
+  b <- create_binning_g g dbg cos (p_zmin p) (p_zmax p) (p_num_bins p) (p_method p) (p_edges p) (p_closed p) ;;
+  Ok (mkConfig s b cos (norm_workers (p_workers p))).
+End Modes.
+
+(* ================================================================== python types of the values *)
+(* The parameters of the model are the numbers the arguments stand for; in which python type a number
+   is handed over (float, numpy.float32, an element of a float32 array ...) is no argument of any
+   function above: the result cannot depend on it.  The defect that was repaired in 18c893e (F26), as a
+   model: the grid computed in the precision of the type of the limits, [rnd] = rounding to that
+   precision (the limits themselves are representable: rnd a == a, rnd b == b). *)
+Definition linear_edges_prec (rnd : Q -> Q) (a b : Q) (n : nat) : list Q :=
+  map (fun i => if (i =? 0)%nat then a else if (i =? n)%nat then b else rnd (lin_point a b n i)) (seq 0 (S n)).
+(* rounding down to multiples of 1/4 on [0, 1), a stand-in for a narrow float type *)
+Definition rnd_quarter (x : Q) : Q :=
+  if Qltb x 0 then x else if Qltb x (1 # 4) then 0 else if Qltb x (1 # 2) then 1 # 4
+  else if Qltb x (3 # 4) then 1 # 2 else if Qltb x 1 then 3 # 4 else x.
